@@ -7,8 +7,9 @@ Import ListNotations.
 Open Scope R_scope.
 
 (* a + i*step for i = 0 .. n-1 *)
-Definition arange_affine (a step : R) (n : nat) : list R :=
-  map (fun i => a + INR i * step) (seq 0 n).
+Fixpoint arange_from (a step i : R) (n : nat) : list R :=
+  match n with O => [] | S n' => (a + i * step) :: arange_from a step (i + 1) n' end.
+Definition arange_affine (a step : R) (n : nat) : list R := arange_from a step 0 n.
 
 (* numpy.linspace(a, b, num, retstep=True): step = (b-a)/(num-1) *)
 Definition linspace_closed_step (a b : R) (num : Z) : R := (b - a) / IZR (num - 1).
@@ -29,6 +30,9 @@ Fixpoint trapz_sum (ys : list R) : R :=
 Definition trapz_dx (dx : R) (ys : list R) : R := dx * trapz_sum ys.
 
 Fixpoint list_prod (l : list R) : R := match l with [] => 1 | x :: t => x * list_prod t end.
+
+(* numpy.any on a 3-vector *)
+Definition vany (v : vec3) : bool := negb (Reqb (vx v) 0) || negb (Reqb (vy v) 0) || negb (Reqb (vz v) 0).
 
 (* trapezoid(ys, x=xs) on a list of nodes (x, y) *)
 Fixpoint trapz_nodes (l : list (R * R)) : R :=
